@@ -46,7 +46,7 @@ ASSUMPTIONS = ["glibc stdio: fopen(a) reports ftell = size, fopen(a+) starts rea
                "opened without that direction fail with the error flag (mirrored from the twin)",
                "two File objects never have the same path open at the same time (excluded by construction)",
                "print_to/scan_from use value classes that round-trip by specification of Show/Look: Int via %$ and "
-               "%li, String via %$ (no escape characters) and %s (no white space), Float k/64 via %$, %f, %lf; other "
+               "%li, %hhd (signed char values) and %hd (short values), String via %$ (no escape characters) and %s (no white space), Float k/64 via %$, %f, %lf; other "
                "formats belong to C15",
                "after output on an update stream a flush or seek precedes input and vice versa (C11 7.21.5.3p7); "
                "sflush is only issued on streams whose last operation was not input",
@@ -534,7 +534,7 @@ class Plan:
             return self.rq_tell(f)
         self.do_flush(f)
 
-    # print/scan items: ["i", v] ["d", v] ["q", hex] ["s", hex] ["f", k] ["g", k] ["G", k] ["l", hex] ["p"]
+    # print/scan items: ["i", v] ["d", v] ["h", v] (%hhd) ["H", v] (%hd) ["q", hex] ["s", hex] ["f", k] ["g", k] ["G", k] ["l", hex] ["p"]
     @staticmethod
     def _render(items):
         out = bytearray()
@@ -548,7 +548,7 @@ class Plan:
             elif k == "p":
                 out += b"%"
                 words.append("p")
-            elif k in ("i", "d"):
+            elif k in ("i", "d", "h", "H"):
                 out += b"%d" % it[1]
                 words.append("%s:%d" % (k, it[1]))
             elif k == "q":
@@ -577,7 +577,7 @@ class Plan:
                 words.append("l:" + it[1])
             elif k == "p":
                 words.append("p")
-            elif k in ("i", "d"):
+            elif k in ("i", "d", "h", "H"):
                 words.append(k)
                 vals.append("i%d" % it[1])
             elif k in ("q", "s"):
@@ -928,6 +928,9 @@ def _LONGTXT(alphabet):
 def _value():
     return st.one_of(
         st.tuples(st.sampled_from(["i", "d"]), _INTV),
+        # the narrow integer conversions: %hhd with a signed char value, %hd with a short value
+        st.tuples(st.just("h"), st.one_of(st.integers(-128, 127), st.sampled_from([-128, -1, 127]))),
+        st.tuples(st.just("H"), st.one_of(st.integers(-32768, 32767), st.sampled_from([-32768, -129, -1, 128, 32767]))),
         st.tuples(st.just("q"), st.lists(st.sampled_from(_QCH), max_size=12).map(lambda l: bytes(l).hex())),
         st.tuples(st.just("s"), st.lists(st.sampled_from(_SCH), min_size=1, max_size=12).map(lambda l: bytes(l).hex())),
         st.tuples(st.just("q"), _LONGTXT(_QCH)),
